@@ -254,14 +254,15 @@ def check_flatten(ctx, log, runs, style, lo=None, hi=None, where='flatten', **de
     exp_pairs = M.flatten_expected(sub, style)
     exp_steps = [sub[k]['rows'][r][sub[k]['columns'].index('Step')] for k, r in exp_pairs]
     values = {c: res[c].tolist() for c in cols}
-    flip = style == 'last' and M.int_printed_later(sub)
+    flip = M.int_printed_later(sub) if style == 'last' else set()
     if flip:
         rec.count('flatten:last:int-printed-later')
+        rec.count('flatten:last:int-printed-later:columns', len(flip))
 
-    def row_ok(i, k, r):
+    def row_ok(i, k, r, only=None):
         ev, et = M.row_dict(sub, k, r)
         for c in ucols:
-            if c not in values:
+            if c not in values or (only is None and c in flip) or (only is not None and c not in only):
                 continue
             g = values[c][i]
             if c in ev:
@@ -294,9 +295,13 @@ def check_flatten(ctx, log, runs, style, lo=None, hi=None, where='flatten', **de
         b = row_ok(i, *owner[s])
         if b:
             bad.append((s,) + b + (owner[s][0],))
-    rec.check(not bad, f"flatten('{style}') takes each Step from the {'earliest' if style == 'first' else 'latest'} run that printed it",
-              f'{where}:{style}:source' + (':int-printed-later' if flip else ''), first=bad[:3],
-              steps=[s_[:6] for s_ in steps], **detail)
+    clause = f"flatten('{style}') takes each Step from the {'earliest' if style == 'first' else 'latest'} run that printed it"
+    rec.check(not bad, clause, f'{where}:{style}:source', first=bad[:3], steps=[s_[:6] for s_ in steps], **detail)
+    if flip:
+        # columns printed as whole numbers by a later run (input class of the known integer-cast finding) are
+        # judged under their own key, all other columns of the same table under the ordinary one
+        bad2 = [b for b in (row_ok(i, *owner[s], only=flip) for i, s in enumerate(got_steps) if s in owner) if b]
+        rec.check(not bad2, clause, f'{where}:{style}:source:int-printed-later', first=bad2[:3], columns=sorted(flip), **detail)
     missing = sorted(set(exp_steps) - set(got_steps))
     if status == 'exempt':
         rec.count('flatten:exempt-off-grid')
